@@ -36,14 +36,15 @@ theorem drop_append_len {γ : Type} (X Y : List γ) (n : Nat) (h : X.length = n)
 /-! ### the cut -/
 
 /-- events split into those before the first dump (`P`), inside the dumps (`W`) and after the last
-    dump (`A`): the cut keeps the last of `P` (moved to dump 0) and all of `W`. -/
+    dump (`A`): the cut keeps the last of `P` (moved to dump 0) and all of `W`; the flag
+    `has_prior_event` says whether `P` is non-empty. -/
 theorem cutEv_split (N : Nat) (hN : 0 < N) (tr : Option (V → V)) (P W A : List (Int × V))
     (hP : ∀ e ∈ P, e.1 < 0) (hW : ∀ e ∈ W, 0 ≤ e.1 ∧ e.1 < (N : Int)) (hA : ∀ e ∈ A, (N : Int) ≤ e.1) :
     s2cCutEv ((P ++ W ++ A).map Prod.fst) ((P ++ W ++ A).map Prod.snd) N tr =
       let f : V → V := trFun tr
       match P.getLast? with
-      | none => (W.map (fun e => f e.2), W.map (fun e => e.1.toNat))
-      | some pl => (f pl.2 :: W.map (fun e => f e.2), 0 :: W.map (fun e => e.1.toNat)) := by
+      | none => (W.map (fun e => f e.2), W.map (fun e => e.1.toNat), false)
+      | some pl => (f pl.2 :: W.map (fun e => f e.2), 0 :: W.map (fun e => e.1.toNat), true) := by
   have hmapf : ∀ (l : List V), (match tr with | some f => l.map f | none => l) =
       l.map (match tr with | some f => f | none => id) := by
     intro l; cases tr <;> simp
@@ -75,7 +76,7 @@ theorem cutEv_split (N : Nat) (hN : 0 < N) (tr : Option (V → V)) (P W A : List
     have hopl : searchsortedLeft (([] ++ W ++ A).map Prod.fst) (N : Int) = W.length := by
       simp only [searchsortedLeft, List.nil_append, List.map_append]
       rw [takeWhile_split _ _ _ hWlt hAge]; simp
-    simp only [s2cCutEv, hfp0, Nat.lt_irrefl, gt_iff_lt, if_false, hopl, pySlice, List.getLast?_nil]
+    simp only [s2cCutEv, hfp0, Nat.lt_irrefl, gt_iff_lt, decide_false, Bool.false_eq_true, if_false, hopl, pySlice, List.getLast?_nil]
     simp only [List.nil_append, List.map_append, List.drop_zero]
     rw [take_append_len _ _ _ (by simp), take_append_len _ _ _ (by simp)]
     cases tr <;> simp [List.map_map, Function.comp, trFun]
@@ -123,7 +124,7 @@ theorem cutEv_split (N : Nat) (hN : 0 < N) (tr : Option (V → V)) (P W A : List
       rw [takeWhile_split _ _ _ hXlt hAge]
       simp; omega
     have hpos : P'.length + 1 > 0 := by omega
-    simp only [s2cCutEv, hfp0, hpos, if_true, Nat.add_sub_cancel, hopl, pySlice]
+    simp only [s2cCutEv, hfp0, hpos, decide_true, if_true, Nat.add_sub_cancel, hopl, pySlice]
     rw [hset]
     have hgl : (P'.concat pl).getLast? = some pl := by simp
     simp only [hgl]
